@@ -1,7 +1,7 @@
 """Which contract families decide which property, and at what claimed level."""
 PROPS = {
     'C03': {
-        'families': ['contracts.optimizer', 'contracts.native'],
+        'families': ['contracts.optimizer', 'contracts.optfold', 'contracts.native'],
         'level': 'other',
         'technique': 'frame obligation by a conservative def-use scan of the real AST + contract on the fallback path; bounded native stand-in for result equivalence',
         'text': 'Frame obligation "processing does not alter the evolution definitions" decided by a conservative scan of every store '
